@@ -67,7 +67,10 @@ def ssc_source(rng):
             s = states(k)
             if k == "WARPS":
                 s = rng.choice(["absent", "empty", "empty", "empty", "value"])
-                if s == "value": sf[k] = "4.000=1.000"; continue
+                if s == "value":
+                    # well-formed, non-empty warp lists of every shape: zero-length warps, several rows, rows over several lines
+                    sf[k] = rng.choice(["4.000=1.000", "8.000=0.000", "8.000=0.000,\n12.000=0.000", "0.000=0.500", "4.000=0.000,8.000=2.000",
+                                        "4.000=1.000,\n6.000=0.250", "1.500=0", "2=0.0"]); continue
             if s == "absent":
                 if k in sf: del sf[k]
             elif s == "empty": sf[k] = ""
